@@ -256,7 +256,7 @@ def _input_type(nd):
     if nd[0] == "slice":
         return lib.IntColl
     t = refmodel.SPEC[nd[1]][0]
-    return {"int": lib.IntData, "coll": lib.IntColl, "none": NoDataType}.get(t)
+    return {"int": lib.IntData, "subint": lib.SubIntData, "coll": lib.IntColl, "none": NoDataType}.get(t)
 
 
 def _output_type(nd):
@@ -266,7 +266,7 @@ def _output_type(nd):
         return None
     if nd[0] == "slice":
         return lib.IntColl if nd[1] != "PrParam" else None
-    return {"OpAdd": lib.IntData, "OpAddDef": lib.IntData, "OpAff": lib.IntData, "OpTwo": lib.IntData, "OpCtxW": lib.IntData, "OpToOther": lib.OtherData, "OpSub": lib.IntData, "OpMkColl": lib.IntColl, "OpSum": lib.IntData, "SrcV": lib.IntData, "SrcD": lib.IntData, "PSrc": lib.IntData}.get(nd[1])
+    return {"OpAdd": lib.IntData, "OpAddDef": lib.IntData, "OpAff": lib.IntData, "OpTwo": lib.IntData, "OpCtxW": lib.IntData, "OpToOther": lib.OtherData, "OpSub": lib.IntData, "OpSubDecl": lib.SubIntData, "OpNeedSub": lib.IntData, "OpMkColl": lib.IntColl, "OpSum": lib.IntData, "SrcV": lib.IntData, "SrcD": lib.IntData, "PSrc": lib.IntData}.get(nd[1])
 
 
 def _replay_p1(T, a):
